@@ -229,6 +229,19 @@ def main():
             assumptions_seen[f'{rel}:{nm}'] = a_
         if not built:
             notes.append(f'{rel} does not compile')
+    # thorough tier: the independent checker re-checks the property's compiled theorems and everything
+    # they depend on, and lists the axioms of the whole context (cached per tree)
+    if tier == 'thorough' and os.path.exists(os.path.join(V, 'coq', 'theories', P['theorems'] + '.vo')):
+        lib = 'SaoVerif.' + P['theorems'].replace('/', '.')
+        cache = os.path.join(BUILD, 'coqchk-' + tree_stamp() + '-' + cid + '.log')
+        if not os.path.exists(cache):
+            open(cache, 'w').write(sh(f'cd {V}/coq && timeout 5400 coqchk -silent -o -Q theories SaoVerif {lib} 2>&1 | tail -40').stdout)
+        out = open(cache).read()
+        m_ax = re.search(r'\* Axioms:(.*?)\n\s*\n\* Constants', out, re.S)
+        ax_txt = ' '.join(m_ax.group(1).split()) if m_ax else 'coqchk gave no summary: ' + out[-300:]
+        clean = bool(m_ax) and ax_txt == '<none>' and 'type-in-type: <none>' in out and 'unsafe (co)fixpoints: <none>' in out and 'positivity is assumed: <none>' in out
+        obligations.append((f'coqchk -o {lib}: no axioms, no unchecked fixpoints, positivity or universes', clean, '' if clean else ax_txt[:600]))
+        trusted.append('coqchk -silent -o: Axioms: ' + ax_txt[:300])
     axioms = sorted({a_ for a_ in assumptions_seen.values() if a_ != 'closed'})
     trusted.append('Print Assumptions: ' + ('all property theorems closed under the global context' if not axioms else '; '.join(axioms)))
     bad_ax = [a_ for a_ in axioms if not props.axioms_allowed(a_)]
